@@ -304,7 +304,7 @@ Print Assumptions c06_cap_poll.
    queued ACKs after its first iteration sent data); TRUE of every poll the transport cannot answer with
    EMSGSIZE (no path limit in force, no EMSGSIZE in the script) -- the guard is on the EVENTS of the trace,
    c06_emitted_live_ok_g (Conn/C06_Pred2.v) carries it. *)
-From Utp Require Import Conn.C06_Pred2 Conn.C10_Proofs.
+From Utp Require Import Conn.C06_Pred2 Conn.C10_Proofs Conn.VSock_LemmasPipe.
 
 Theorem c06_emitted_live_ok_restart_refuted :
   exists w cfg ops,
